@@ -738,10 +738,71 @@ class Sym:
     def ev_LetExpr(self, n, st):
         return self.bool_value(n, st)
 
+    def unroll_array_for(self, n, st):
+        """`for pat in [e1, .., ek] { body }` (k <= 8, array literal): k copies of the body in sequence. None if n is not that."""
+        if n.get("k") != "Match" or "ForLoopDesugar" not in n.get("src", ""):
+            return None
+        sc = F.strip(n["scrut"])
+        if not F.is_call(sc, "std::iter::IntoIterator::into_iter") or len(n["arms"]) != 1:
+            return None
+        arr = F.strip(sc["args"][0])
+        arr_is_lit = arr.get("k") == "Array" and 1 <= len(arr["fields"]) <= 8
+        if not arr_is_lit and not (arr.get("k") in ("Var", "Upvar") and re.match(r"^\[.*; [1-8]\]$", arr.get("ty") or "")):
+            return None
+        lp = F.strip(n["arms"][0]["body"])
+        while lp.get("k") == "Block" and not lp["stmts"] and lp.get("tail") is not None:
+            lp = F.strip(lp["tail"])
+        if lp.get("k") != "Loop":
+            return None
+        inner = F.strip(lp["body"])
+        while inner.get("k") == "Block" and inner.get("tail") is None and len(inner["stmts"]) == 1 and inner["stmts"][0]["k"] == "Expr":
+            inner = F.strip(inner["stmts"][0]["e"])
+        while inner.get("k") == "Block" and not inner["stmts"] and inner.get("tail") is not None:
+            inner = F.strip(inner["tail"])
+        if inner.get("k") != "Match" or not F.is_call(F.strip(inner["scrut"]), "std::iter::Iterator::next") or len(inner["arms"]) != 2:
+            return None
+        some_arm = [a_ for a_ in inner["arms"] if a_["pat"].get("k") == "Variant" and a_["pat"].get("variant") == "Some"]
+        if len(some_arm) != 1 or not some_arm[0]["pat"]["fields"]:
+            return None
+        elem_pat, body = some_arm[0]["pat"]["fields"][0]["pat"], some_arm[0]["body"]
+        if arr_is_lit:
+            done, exits = self.ev_seq(arr["fields"], st)
+        else:
+            # a local bound to an array literal of known small length
+            done, exits = [], []
+            for s_, (k_, v_) in self.ev(arr, st):
+                if k_ == VAL and v_[0] == "array" and 1 <= len(v_[1]) <= 8:
+                    done.append((s_, list(v_[1])))
+                else:
+                    return None
+        out = list(exits)
+        for s0, vals in done:
+            cur = [s0]
+            for v_ in vals:
+                nxt = []
+                for s1 in cur:
+                    for s2, okm in self.pmatch(elem_pat, v_, s1):
+                        if not okm:
+                            continue
+                        for s3, (k3, v3) in self.ev(body, s2):
+                            if k3 in (VAL, CONT):
+                                nxt.append(s3)
+                            elif k3 == BRK:
+                                out.append((s3, (VAL, UNIT)))
+                            else:
+                                out.append((s3, (k3, v3)))
+                cur = nxt
+            out += [(s_, (VAL, UNIT)) for s_ in cur]
+        self.budget(n, out)
+        return out
+
     def ev_Match(self, n, st):
         t_op = FL.try_operand(n)
         if t_op is not None:
             return self.ev_try(n, t_op, st)
+        r_ = self.unroll_array_for(n, st)
+        if r_ is not None:
+            return r_
         out = []
         for s, (k, v) in self.ev(n["scrut"], st):
             if k != VAL:
